@@ -12,7 +12,7 @@ HERE = os.path.dirname(os.path.abspath(__file__))
 REPO = os.environ.get('VERIF_REPO', '/repo')
 db = json.load(open(os.path.join(REPO, 'db', 'isa_x86.json')))
 
-REG_KINDS = {'r8': 'K_GP8', 'r16': 'K_GP16', 'r32': 'K_GP32', 'r64': 'K_GP64', 'mm': 'K_MM', 'xmm': 'K_XMM', 'ymm': 'K_YMM', 'zmm': 'K_ZMM', 'k': 'K_KREG'}
+REG_KINDS = {'st(i)': 'K_ST', 'r8': 'K_GP8', 'r16': 'K_GP16', 'r32': 'K_GP32', 'r64': 'K_GP64', 'mm': 'K_MM', 'xmm': 'K_XMM', 'ymm': 'K_YMM', 'zmm': 'K_ZMM', 'k': 'K_KREG'}
 MEM_SIZES = {'m8': 1, 'm16': 2, 'm32': 4, 'm64': 8, 'm80': 10, 'm128': 16, 'm256': 32, 'm512': 64, 'mem': 0,
              'm16int': 2, 'm32int': 4, 'm64int': 8, 'm32fp': 4, 'm64fp': 8, 'm80fp': 10, 'm80bcd': 10, 'm80dec': 10}
 IMM_SIZES = {'imm8': 1, 'imms8': 1, 'immu8': 1, 'imm16': 2, 'immu16': 2, 'imm32': 4, 'imms32': 4, 'immu32': 4, 'imm64': 8}
@@ -24,11 +24,12 @@ DB_ERRATA = {
     ('vmovntps', 'EVEX'): dict(pp=0),  # db says 66; SDM: EVEX.NP.0F.W0 2B
     ('shrd', 'LEGACY'): dict(pp=0),    # db: "66 0F AC /r ib" for rv/mv; SDM: 0F AC (66 only as the operand-size prefix of the 16-bit form)
     ('vpmovmskb', 'layout'): True,
+    ('fsqrt', 'LEGACY'): dict(fixed=[0xFA]),   # db says D9 FE (that is fsin); SDM: D9 FA
     ('vcvtph2psx', 'tt'): 'hv',        # db says qv; SDM (AVX512-FP16): Half tuple (m64/m128/m256 source)     # db layout [RVM] for a two-operand instruction; SDM: ModRM:reg(w), ModRM:r/m(r)
 }
 
 # explicit operands that name one register: (kind or 'v' for the rv-sized accumulator, encoding id)
-FIXED_REGS = {'al': ('K_GP8', 0), 'ax': ('K_GP16', 0), 'eax': ('K_GP32', 0), 'rax': ('K_GP64', 0), 'axv': ('v', 0), 'cl': ('K_GP8', 1), 'dx': ('K_GP16', 2)}
+FIXED_REGS = {'st(0)': ('K_ST', 0), 'al': ('K_GP8', 0), 'ax': ('K_GP16', 0), 'eax': ('K_GP32', 0), 'rax': ('K_GP64', 0), 'axv': ('v', 0), 'cl': ('K_GP8', 1), 'dx': ('K_GP16', 2)}
 
 # the destination's read access depends on the immediate (vpternlog with imm 0x00/0xFF ignores its inputs): no claim on operand 0
 ACCESS_VALUE_DEPENDENT = {'vpternlogd', 'vpternlogq'}
@@ -58,7 +59,7 @@ def parse_operand(tok, first=False):
     deco = set(re.findall(r'\{(\w+)\}', t))
     t = re.sub(r'\{\w+\}', '', t).strip()
     t = t.replace('~', '')
-    if t.startswith('<') or t in ('dxv', 'st(0)', 'st(i)', 'es', 'cs', 'ss', 'ds', 'fs', 'gs'):
+    if t.startswith('<') or t in ('dxv', 'es', 'cs', 'ss', 'ds', 'fs', 'gs'):
         raise Skip('implicit/fixed operand ' + t)
     if t in FIXED_REGS: return dict(alts=[('fixedreg', t)], deco=deco, acc=acc)
     if t == '1': return dict(alts=[('const1', t)], deco=deco, acc=acc)
@@ -82,13 +83,13 @@ def parse_operand(tok, first=False):
 
 def parse_op_string(op):
     """-> dict(layout, enc, pp, map, w, l, opcode, digit, has_modrm, modrm_mode, imm, is4, fixed, rexw, opreg, vl_token, w_token)"""
-    m = re.match(r'\s*\[([A-Za-z_ ]*)\]\s*(.*)$', op)
-    if not m:
+    m = re.match(r'\s*(?:\[([A-Za-z_ ]*)\]\s*)?(.*)$', op)
+    if not m or not m.group(2).strip():
         raise Skip('no layout')
-    layout = m.group(1).strip().replace('_', '')
+    layout = (m.group(1) or '').strip().replace('_', '')   # x87 records carry no [layout]
     toks = m.group(2).split()
     r = dict(layout=layout, enc='E_LEGACY', pp=0, map=0, w=0, l=0, opcode=None, digit=-1, has_modrm=0, modrm_mode='any', imm=[], is4=False, fixed=[], rexw=False, opreg=False,
-             vl_token=None, w_token=None, pv=False, p66=False)
+             vl_token=None, w_token=None, pv=False, p66=False, x87=False)
     i = 0
     PP = {'NP': 0, '66': 1, 'F3': 2, 'F2': 3, 'P0': 0}
     MAP = {'0F': 1, '0F38': 2, '0F3A': 3, 'MAP5': 5, 'MAP6': 6, 'MAP8': 8, 'MAP9': 9, 'MAPA': 10, 'MAP10': 10}
@@ -130,8 +131,7 @@ def parse_op_string(op):
     m = re.fullmatch(r'([0-9A-F]{2})(\+[ri])?', toks[i])
     if not m: raise Skip('opcode token ' + toks[i])
     r['opcode'] = int(m.group(1), 16)
-    if m.group(2) == '+r': r['opreg'] = True
-    elif m.group(2) == '+i': raise Skip('fpu +i')
+    if m.group(2) in ('+r', '+i'): r['opreg'] = True
     i += 1
     while i < len(toks):
         t = toks[i]; i += 1
@@ -144,6 +144,8 @@ def parse_op_string(op):
         elif t in ('ib', 'iw', 'id', 'iq'): r['imm'].append({'ib': 1, 'iw': 2, 'id': 4, 'iq': 8}[t])
         elif t == 'iv': r['imm'].append('v')
         elif t == '/is4': r['is4'] = True
+        elif re.fullmatch(r'[0-9A-F]{2}\+i', t) and not r['has_modrm']:   # x87 register form: second byte = 11 reg(3) st(i)
+            b2 = int(t[:2], 16); r['has_modrm'] = 1; r['digit'] = (b2 >> 3) & 7; r['modrm_mode'] = 'reg'; r['x87'] = True
         elif re.fullmatch(r'[0-9A-F]{2}', t) and not r['has_modrm'] and not r['imm']: r['fixed'].append(int(t, 16))
         else: raise Skip('op token ' + t)
     if len(r['fixed']) > 2: raise Skip('too many fixed bytes')
@@ -255,6 +257,8 @@ def build_form(name, o, var, gsz, vsz, modes, extra):
         if o['opreg']:
             role = 'R_OPREG'
         else:
+            if not layout and kind == 'mem' and o['digit'] >= 0: layout = 'M'   # x87: "D8 /0" with a memory operand
+            if not layout and o['x87'] and kind == 'reg' and tok == 'st(i)': layout = 'M' * 4   # st(i) lives in ModRM.rm
             if li >= len(layout): raise Skip('layout shorter than operands')
             role = roles.get(layout[li])
             if role is None: raise Skip('layout letter ' + layout[li])
@@ -385,8 +389,11 @@ KF_LEN = {'lwpins': 'D4', 'lwpval': 'D4'}
 EXCLUDED_GROUPS = {('xchg', ('K_GP64', 'K_GP64')): 'xchg rax, rax is emitted as 90 (nop), a semantic alias outside the record syntax',
                    ('xchg', ('K_GP32', 'K_GP32')): 'accumulator alias handling (xchg eax, eax must not be 90 in 64-bit mode) is checked by hand-written harness instead',
                    ('xchg', ('K_GP16', 'K_GP16')): 'same as above'}
+EXCLUDED_NAMES = {n: 'FWAIT-prefixed (9B) x87 control forms are not modelled by the reference decoder' for n in ('fstcw', 'fstenv', 'fstsw', 'fsave', 'fclex', 'finit')}
 excluded = []
 for k in list(groups):
+    if k[0] in EXCLUDED_NAMES:
+        excluded.append(dict(inst=k[0], kinds=list(k[1]), reason=EXCLUDED_NAMES[k[0]])); del groups[k]; continue
     if k in EXCLUDED_GROUPS:
         excluded.append(dict(inst=k[0], kinds=list(k[1]), reason=EXCLUDED_GROUPS[k])); del groups[k]
 
